@@ -680,8 +680,25 @@ def layout_sig(k, modname):
 class C16(Prop):
     id = "C16"
     driver = "C16"
-    lean_modules = ["Pfb.C16.Model"]
-    theorems = []
+    lean_modules = ["Pfb.C16.Props"]
+    theorems = [
+        "Pfb.C16.lp_frame",
+        "Pfb.C16.C16_rollback",
+        "Pfb.C16.C16_rollback_syntax",
+        "Pfb.C16.C16_registry_restored",
+        "Pfb.C16.C16_names",
+        "Pfb.C16.lp_dict_keys",
+        "Pfb.C16.C16_function",
+        "Pfb.C16.C16_class",
+        "Pfb.C16.D18_issubclass_false",
+        "Pfb.C16.D18_fixed_issubclass_true",
+        "Pfb.C16.D41_typeError",
+        "Pfb.C16.D41_fixed",
+        "Pfb.C16.D17_identity_lost",
+        "Pfb.C16.D17_contrast_identity_kept",
+        "Pfb.C16.D45_stale_cell",
+        "Pfb.C16.D45_fixed",
+    ]
     anchors = [
         ("lib/python/pyflyby/_livepatch.py", "livepatch"),
         ("lib/python/pyflyby/_livepatch.py", "_livepatch__module"),
@@ -695,8 +712,8 @@ class C16(Prop):
         ("lib/python/pyflyby/_livepatch.py", "_xreload_module"),
         ("lib/python/pyflyby/_livepatch.py", "xreload"),
     ]
-    quick_cases = 600
-    thorough_cases = 12000
+    quick_cases = 2500
+    thorough_cases = 30000
     quick_deadline_s = 60
     thorough_deadline_s = 600
     rule = ("(old, new) module version pairs from harness/gen_c16.py (functions, defaults, docs, function attributes, "
@@ -717,8 +734,36 @@ class C16(Prop):
         c.pop("items", None)
         return c
 
+    # hand-written version pairs, each run without failure and with a failure before every statement index
+    PAIRS = [
+        (["def foo(a=1):\n    return a + 1"], ["def foo(a=2):\n    'doc'\n    return a + 10"]),
+        (["X = 1", "def f():\n    return X", "def gone():\n    return 0"], ["X = 2", "def f():\n    return X + 1", "Y = [X]"]),
+        (["def deco(fn):\n    def wrapper(*a):\n        return fn(*a) + 1\n    return wrapper", "@deco\ndef f(a=1):\n    return a"],
+         ["def deco(fn):\n    def wrapper(*a):\n        return fn(*a) + 2\n    return wrapper", "@deco\ndef f(a=1):\n    return a * 3"]),
+        (["def mk(p):\n    def inner(x=1):\n        return x * p\n    return inner", "cl = mk(2)"],
+         ["def mk(p):\n    def inner(x=1):\n        return x * p + 1\n    return inner", "cl = mk(2)"]),
+        (["class C:\n    K = 1\n    def m(self, a=1):\n        return a\n    @staticmethod\n    def s(a=1):\n        return a\n    @classmethod\n    def c(cls):\n        return cls.__name__\n    @property\n    def p(self):\n        return 1", "i = C()", "i.e = 1"],
+         ["class C:\n    K = 2\n    def m(self, a=1):\n        return a + 1\n    @staticmethod\n    def s(a=1):\n        return a + 1\n    @classmethod\n    def c(cls):\n        return cls.__name__ + '!'\n    @property\n    def p(self):\n        return 2\n    def extra(self):\n        return 3", "i = C()", "i.e = 2"]),
+        (["class S:\n    __slots__ = ('v',)\n    def __init__(self, v=0):\n        self.v = v\n    def m(self):\n        return self.v", "s = S(1)"],
+         ["class S:\n    __slots__ = ('v',)\n    def __init__(self, v=0):\n        self.v = v\n    def m(self):\n        return self.v + 1", "s = S(2)"]),
+        (["d = {'a': 1, 'f': (lambda: 1)}", "t = (1, 2)"], ["d = {'b': 2, 'f': (lambda: 2)}", "t = (1, 3)", "u = None"]),
+        (["import os", "from os.path import join", "def f():\n    return join('a', 'b')"], ["import os", "from os.path import join", "def f():\n    return join('a', 'c')"]),
+        (["def f():\n    return 1", "f.tag = 1", "box = [f]"], ["def f():\n    return 2", "f.other = 2", "box = [f, f]"]),
+        (["class C:\n    def m(self):\n        return 1", "class C2:\n    X = C"], ["class C:\n    def m(self):\n        return 2", "class C2:\n    X = C"]),
+        (["class C:\n    def f(self):\n        return 1", "C.X = C"], ["class C:\n    def f(self):\n        return 2", "C.X = C"]),
+        (["d = {}", "d['x'] = d", "d['f'] = lambda: 1"], ["d = {}", "d['x'] = d", "d['f'] = lambda: 2"]),
+    ]
+
     def exhaustive_cases(self, tier, rng):
-        return []
+        out = []
+        kinds = ["raise", "syntax", "kbint"] if tier != "thorough" else list(gen_c16.INJECT) + ["syntax"]
+        for old, new in self.PAIRS:
+            for via in (["module"] if tier != "thorough" else ["module", "name", "path"]):
+                out.append(dict(old=old, new=new, fail=None, via=via))
+                for at in range(len(new) + 1):
+                    for kind in kinds:
+                        out.append(dict(old=old, new=new, fail=dict(at=at, kind=kind), via=via))
+        return out
 
     # -- implementation + facts ------------------------------------------------
     def run_impl(self, case):
